@@ -13,7 +13,8 @@ EXPLANATION = ("Event: wait() awaits on both branches and really waits unless th
                "cleared. Condition: the lock-holder check dominates every access to the waiter queue; the recorded owner is set after the lock "
                "was acquired and cleared after it was released; notify(n) dequeues at most n waiters from the head and sets each; wait() "
                "registers, releases, waits, on interruption removes itself or forwards an already received notification, always re-raises and "
-               "always re-acquires the lock under a shield.")
+               "always re-acquires the lock under a shield."
+               " The ownership test rests on TaskInfo equality, which compares the task id and nothing that changes during a task's life.")
 NOT_DECIDED = "Spurious wake-ups caused by the event loop, multi-party histories (queue automaton over observed histories is a run-time oracle)."
 
 
